@@ -42,7 +42,7 @@ def obligations(tier):
     C06 = importlib.import_module("props.C06")
     o += [x for x in C06.obligations(tier) if x.name.startswith("counter_yield") or x.name.startswith("stop_")]
     C07 = importlib.import_module("props.C07")
-    o += [x for x in C07.obligations(tier) if x.name in ("seq_fifo_shared_push", "seq_fifo_shared_pop", "seq_randws_shared_pop", "seq_fifo_wait_pop")]
+    o += [x for x in C07.obligations(tier) if x.name in ("seq_fifo_shared_push", "seq_fifo_shared_pop", "seq_randws_shared_pop", "seq_fifo_wait_pop", "seq_fifo_shared_remove", "seq_randws_shared_remove", "seq_fifo_wait_remove")]
     return o
 
 MANIFEST_ENTRY = {
